@@ -69,7 +69,10 @@ Inductive expr :=
 | EZip (a b : expr)                       (* zip(a, b): tuples, as long as the shorter *)
 | ECallTable (t a : expr)                 (* a call f(a) of an uninterpreted pure function given by its table t: a dict from
                                              arguments to results; the result (VC "raise", cls) stands for raising cls *)
-| ESplitDest (e : expr).                  (* utils.split_dest(e) = e.rpartition(".")[0], [2] (source shape-checked by PipelineSrc.py) *)
+| ESplitDest (e : expr)                   (* utils.split_dest(e) = e.rpartition(".")[0], [2] (source shape-checked by PipelineSrc.py) *)
+(* fifth group (_instantiate_dataclasses) *)
+| ESortAttr (e : expr) (attr : string) (rev : bool)   (* sorted(e, key=lambda w: w.attr[, reverse=True]): stable, numeric attribute *)
+| EAll (body : expr) (x : string) (iter : expr).      (* all(body for x in iter) *)
 
 Inductive stmt :=
 | SAssign (x : string) (e : expr)
@@ -91,9 +94,14 @@ Inductive stmt :=
 | SDelAttr (x : string) (k : expr)                              (* delattr(x, k) *)
 | SPop (t x : string) (k : expr) (dflt : option expr)           (* t = x.pop(k[, dflt]) on the dict x *)
 | SPopAttr (t x : string) (k : expr) (dflt : option expr)       (* t = vars(x).pop(k[, dflt]): the live view of the object x *)
-| SCall (body : list stmt) (ins : list (string * expr)) (outs : list (string * string)).
+| SCall (body : list stmt) (ins : list (string * expr)) (outs : list (string * string))
    (* a call of a dumped procedure: its body runs in the environment `ins` (parameter := argument); its `return` ends the call
       only; afterwards each (parameter, caller variable) of `outs` - the arguments the procedure mutates - is copied back *)
+(* fifth group *)
+| SBreak
+| SForBE (x : string) (iter : expr) (body els : list stmt)      (* for .. [else ..]: the body may `break` and `continue` *)
+| SCallRet (t : string) (body : list stmt) (ins : list (string * expr)) (outs : list (string * string)).
+   (* t = f(..): as SCall, then t receives what the procedure returned (None when it fell off the end) *)
 Definition block := list stmt.
 
 Definition env := list (string * val).
@@ -204,6 +212,8 @@ Fixpoint rset (k : string) (v : val) (d : list (string * val)) : list (string * 
 Fixpoint rdel (k : string) (d : list (string * val)) : list (string * val) :=
   match d with [] => [] | (k', w) :: t => if String.eqb k' k then t else (k', w) :: rdel k t end.
 
+Definition BRK : val := VC "<break>".
+Definition is_brk (v : val) : bool := match v with VC n => String.eqb n "<break>" | _ => false end.
 Definition CONT : val := VC "<continue>".
 Definition is_cont (v : val) : bool := match v with VC n => String.eqb n "<continue>" | _ => false end.
 Definition pair_of (a b : val) : val := VT [a; b].
@@ -413,6 +423,41 @@ Definition pair_step (step : val -> val -> env -> res (env * option val)) : val 
              | Some _ => Err (Raise "ValueError")
              | None => rerr end.
 
+(* sorted(l, key=lambda w: w.attr, reverse=rev): stable insertion by a numeric attribute *)
+Fixpoint ins_key (rev : bool) (k : nat) (x : val) (l : list (nat * val)) : list (nat * val) :=
+  match l with
+  | [] => [(k, x)]
+  | (k', y) :: t => if (if rev then Nat.ltb k' k else Nat.ltb k k') then (k, x) :: l else (k', y) :: ins_key rev k x t
+  end.
+Fixpoint keyed (attr : string) (l : list val) : option (list (nat * val)) :=
+  match l with
+  | [] => Some []
+  | VR c f :: t => match rget attr f, keyed attr t with Some (VN k), Some r => Some ((k, VR c f) :: r) | _, _ => None end
+  | _ :: _ => None
+  end.
+Definition op_sortattr (attr : string) (rev : bool) (a : res val) : res val :=
+  match a with
+  | Ok (VL l) => match keyed attr l with
+                 | Some kl => Ok (VL (map snd (fold_left (fun acc p => ins_key rev (fst p) (snd p) acc) kl [])))
+                 | None => rerr end
+  | Ok _ => rerr | Err z => Err z end.
+Fixpoint all_list (f : val -> res val) (l : list val) : res val :=
+  match l with
+  | [] => Ok (VB true)
+  | v :: t => match f v with Ok b => if truthy b then all_list f t else Ok (VB false) | Err z => Err z end
+  end.
+Definition for_else (o : res (env * option val)) (els : env -> res (env * option val)) : res (env * option val) :=
+  match o with
+  | Ok (r', Some w) => if is_brk w then Ok (r', None) else Ok (r', Some w)
+  | Ok (r', None) => els r'
+  | Err z => Err z
+  end.
+Definition ret_to (t : string) (o : option val) (back : res (env * option val)) : res (env * option val) :=
+  match back with
+  | Ok (r', _) => Ok (assign t (match o with Some v => v | None => VNone end) r', None)
+  | Err z => Err z
+  end.
+
 Fixpoint eval (r : env) (e : expr) {struct e} : res val :=
   let evals := fix evals (es : list expr) : res (list val) :=
     match es with
@@ -537,6 +582,12 @@ Fixpoint eval (r : env) (e : expr) {struct e} : res val :=
   | EZip a b => op_zip (eval r a) (eval r b)
   | ECallTable t a => op_calltable (eval r t) (eval r a)
   | ESplitDest a => op_splitdest (eval r a)
+  | ESortAttr a attr rev => op_sortattr attr rev (eval r a)
+  | EAll body x iter => match eval r iter with
+                        | Ok it => match seq_items it with
+                                   | Some l => all_list (fun v => eval (assign x v r) body) l
+                                   | None => rerr end
+                        | Err z => Err z end
   end.
 
 (* statements: the result is the new environment and, when a `return` was executed, the returned value *)
@@ -623,6 +674,25 @@ Fixpoint exec (r : env) (s : stmt) {struct s} : res (env * option val) :=
       | Ok r0 => match exec_block r0 body with
                  | Err z => Err z
                  | Ok (r1, _) => copy_back r1 outs r
+                 end
+      end
+  | SBreak => Ok (r, Some BRK)
+  | SForBE x iter body els =>
+      match eval r iter with
+      | Ok (VL l) => for_else (iter_list_c (fun v r => exec_block (assign x v r) body) l r) (fun r' => exec_block r' els)
+      | Ok _ => rerr
+      | Err z => Err z
+      end
+  | SCallRet t body ins outs =>
+      match (fix bind (l : list (string * expr)) (acc : env) : res env :=
+               match l with
+               | [] => Ok acc
+               | (p, a) :: t => match eval r a with Ok v => bind t (assign p v acc) | Err z => Err z end
+               end) ins [] with
+      | Err z => Err z
+      | Ok r0 => match exec_block r0 body with
+                 | Err z => Err z
+                 | Ok (r1, o) => ret_to t o (copy_back r1 outs r)
                  end
       end
   end.
